@@ -135,6 +135,16 @@ c.ens("aes-cbc-with-the-file-key-itself-padding-removed", lambda self, data, res
     result, BT.fn("pkcs7-unpad", [SEC.aes_cbc_dec_nopad(self.key, BT.of(data).slice(0, 16), BT.of(data).slice(16, 48))])))
 
 
+# data that cannot hold the 16-byte initialisation vector is not AES data: handed back as it is, no cipher is set up (damaged documents, C13)
+for _cls, _m, _kn in (("PDFStandardSecurityHandlerV4", "decrypt_aes128", 16), ("PDFStandardSecurityHandlerV5", "decrypt_aes256", 32)):
+    c = contract("pdfminer.pdfdocument:%s.%s#no-room-for-the-iv" % (_cls, _m), props=["C10", "C13"])
+    c.param("self", T.Obj("pdfminer.pdfdocument:" + _cls, key=FixedBytes(_kn)))
+    c.param("objid", T.Int(0, 2 ** 23)).param("genno", T.Int(0, 65535)).param("data", T.OneOf(b"", b"x", b"fifteen bytes .."[:15]))
+    c.skip_cross = True
+    c.stubs = CRYPTO_STUBS
+    c.ens("returned-unchanged", lambda data, result: result == data)
+
+
 # -- Algorithm 2: file key ----------------------------------------------------------------------------------------------------------
 class _HandlerS(T.Sort):
     def __init__(self, revisions):
@@ -346,9 +356,8 @@ for _meth, _bit in (("is_printable", 3), ("is_modifiable", 4), ("is_extractable"
     c.ens("reports-bit-%d-of-P" % _bit, (lambda bit: lambda self, result: Iff(result, eq(mod(floordiv(self.p, 2 ** (bit - 1)), 2), 1)))(_bit))
 
 c = contract("pdfminer.pdftypes:uint_value", props=["C10"])
-c.param("x", T.Int(-2 ** 31, 2 ** 31 - 1)).param("n_bits", T.Const(32)).returns(T.Int())
-c.ens("twos-complement-unsigned", lambda x, result: And(le(0, result), le(result, 2 ** 32), eq(mod(result - x, 2 ** 32), 0)))
-c.note = "P = 0 maps to 2**32 (observation: outside ISO's reserved-bit rules), hence <= rather than <"
+c.param("x", T.Int()).param("n_bits", T.Const(32)).returns(T.Int())
+c.ens("twos-complement-unsigned", lambda x, result: And(le(0, result), lt(result, 2 ** 32), eq(mod(result - x, 2 ** 32), 0)))      # every integer, 0 and values beyond 32 bits included
 
 
 # -- revision 6 hash: loop condition of Algorithm 2.B, mod-3 selector -----------------------------------------------------------------------
@@ -680,26 +689,29 @@ c.inline = True
 c.wire = lambda bound, ghosts: bound["self"].f.__setitem__("param", ghosts["ep"].f["d"])
 c.mod("self.*")
 c.ens("R-O-U-as-stored", lambda self, ep: And(eq(self.r, ep._R), self.o == b"O" * 32, self.u == b"U" * 32))
-c.ens("P-as-unsigned-32-bit", lambda self, ep: And(le(0, self.p), le(self.p, 2 ** 32), eq(mod(self.p - ep._P, 2 ** 32), 0)))
+c.ens("P-as-unsigned-32-bit", lambda self, ep: And(le(0, self.p), lt(self.p, 2 ** 32), eq(mod(self.p - ep._P, 2 ** 32), 0)))
 c.ens("defaults-V-0-Length-40", lambda self, ep: And(
     (self.v == 0) if ep._shape == "no-V" else eq(self.v, ep._V), (self.length == 40) if ep._shape == "no-Length" else eq(self.length, ep._L)))
 
 
 def _set_r(I, bound):
     bound["self"].f["r"] = bound["self"].f["_r_from_params"]
+    bound["self"].f["length"] = bound["self"].f["_length_from_params"]
 
 
 _ip = stub("pdfminer.pdfdocument:PDFStandardSecurityHandler.init_params", ["self"]); _ip.effect = _set_r
 _ik = stub("pdfminer.pdfdocument:PDFStandardSecurityHandler.init_key", ["self"])
 for _cls, _revs in (("PDFStandardSecurityHandler", (2, 3)), ("PDFStandardSecurityHandlerV4", (4,)), ("PDFStandardSecurityHandlerV5", (5, 6))):
     c = contract("pdfminer.pdfdocument:PDFStandardSecurityHandler.init#%s" % _cls, props=["C10"])
-    c.param("self", T.Obj("pdfminer.pdfdocument:" + _cls, _r_from_params=T.Int(0, 8), param=T.Const("param")))
+    c.param("self", T.Obj("pdfminer.pdfdocument:" + _cls, _r_from_params=T.Int(0, 8), _length_from_params=T.Int(), param=T.Const("param")))
     c.skip_cross = True
-    c.mod("self.r")
+    c.mod("self.r").mod("self.length")
     c.stubs = {"pdfminer.pdfdocument:%s.init_params" % k: _ip for k in ("PDFStandardSecurityHandler", "PDFStandardSecurityHandlerV4", "PDFStandardSecurityHandlerV5")}
     c.stubs.update({"pdfminer.pdfdocument:PDFStandardSecurityHandler.init_key": _ik})
-    c.may_raise(PDFEncryptionError, (lambda revs: lambda self: Not(Or(*[eq(self._r_from_params, r_) for r_ in revs])))(_revs))
-    c.ens("parameters-then-revision-check-then-key", lambda trace: [t[0].split(".")[-1] for t in trace] == ["init_params", "init_key"])
+    # refused: a revision the handler does not implement, and (revision 3 and later derive length // 8 key bytes) a key length under 8 bits
+    c.may_raise(PDFEncryptionError, (lambda revs: lambda self: Or(Not(Or(*[eq(self._r_from_params, r_) for r_ in revs])),
+                                                                  And(le(3, self._r_from_params), lt(self._length_from_params, 8))))(_revs))
+    c.ens("parameters-then-revision-and-key-length-check-then-key", lambda trace: [t[0].split(".")[-1] for t in trace] == ["init_params", "init_key"])
 
 
 # Algorithm 6: the candidate key is the one computed from the password; it is returned exactly when it reproduces /U
